@@ -165,7 +165,8 @@ Inductive edop :=
 | OpSignEditor (keys : list N)
 | OpChange (role : bytes)
 | OpFromRepo
-| OpSign (keys : list N).
+| OpSign (keys : list N)
+| OpUpdate (name : bytes) (adds : list (tname * tinfo)) (version : N) (expires : Z) (keys : list N).
 
 Definition with_te (st : red) (te : ted) : red :=
   {| rd_sv := rd_sv st; rd_sexp := rd_sexp st; rd_tsv := rd_tsv st; rd_tsexp := rd_tsexp st;
@@ -193,6 +194,59 @@ Definition sign_editor (r : root) (st : red) (keys : list N) : option red :=
                              | None => None
                              end
                end
+      end
+  end.
+
+(* The cross-party flow. The holder of delegated role [name] loads the published repository
+   (TargetsEditor::from_repo), adds targets, sets version and expiration and signs with its keys
+   (TargetsEditor::sign: SignedRole::new under the delegations of the delegating role); the owner then calls
+   RepositoryEditor::update_delegated_targets on that file: the incoming document must verify under the
+   delegating role (KeyHolder::verify_role) and must not lower the version; Targets::update_targets gives every
+   role the incoming document delegates to the document the owner has loaded for that name below the current
+   role; the result takes the role's place (delegated_role_mut(name).targets = ...) and the editor of the role
+   under edit, if any, is dropped. [incoming] is the holder's part: None when the holder cannot sign. *)
+Definition incoming (r : root) (top : enode) (name : bytes) (adds : list (tname * tinfo)) (version : N) (expires : Z)
+           (keys : list N) : option enode :=
+  match parent_in name top, find_role_in name top with
+  | Some (dk, sibs), Some cur =>
+      match sign_as r (HDeleg dk sibs) name keys with
+      | Some signers => Some (ENode (en_hdr cur) version expires (textend (en_entries cur) adds) (en_dkeys cur)
+                                    (en_children cur) signers)
+      | None => None
+      end
+  | _, _ => None
+  end.
+
+Fixpoint attach_loaded (cur : enode) (l : list enode) : option (list enode) :=
+  match l with
+  | [] => Some []
+  | c :: rest =>
+      match find_role_in (en_name c) cur, attach_loaded cur rest with
+      | Some x, Some rest' => Some (set_content c x :: rest')
+      | _, _ => None
+      end
+  end.
+
+Definition update_delegated (st : red) (name : bytes) (inc : enode) : option red :=
+  match rd_top st with
+  | None => None
+  | Some top =>
+      match parent_in name top, find_role_in name top with
+      | Some (dk, sibs), Some cur =>
+          if deleg_verify fixed dk (hdrs_of sibs) name (sign_with (dh_keyids (en_hdr cur)) (en_signers inc))
+             && (en_version cur <=? en_version inc) then
+            match attach_loaded cur (en_children inc) with
+            | Some ch' =>
+                match replace_role name (ENode top_hdr (en_version inc) (en_expires inc) (en_entries inc) (en_dkeys inc)
+                                               ch' (en_signers inc)) top with
+                | Some top' => Some {| rd_sv := rd_sv st; rd_sexp := rd_sexp st; rd_tsv := rd_tsv st; rd_tsexp := rd_tsexp st;
+                                       rd_te := None; rd_top := Some top' |}
+                | None => None
+                end
+            | None => None
+            end
+          else None
+      | _, _ => None
       end
   end.
 
@@ -306,6 +360,16 @@ Definition ed_step (r : root) (st : red) (o : edop) : option red :=
       | Some ss => if sign_accepts r ss then sign_editor r st keys else None
       | None => None
       end
+  | OpUpdate name adds version expires keys =>
+      (* the top-level role is not updated this way in the programs modelled *)
+      if bytes_eqb name name_targets_role then None
+      else match rd_top st with
+           | None => None
+           | Some top => match incoming r top name adds version expires keys with
+                         | Some inc => update_delegated st name inc
+                         | None => None
+                         end
+           end
   end.
 
 (* a program: every call is made, refused calls change nothing; the answers are recorded *)
